@@ -480,7 +480,16 @@ class Workspace(AbstractContextManager):
             )
 
         if created_entity is not None and save_on_creation and self.h5file is not None:
-            self.save_entity(created_entity, compression=compression)
+            try:
+                self.save_entity(created_entity, compression=compression)
+            except Exception:
+                # an entity that could not be saved (e.g. read-only file) must not stay in the tree
+                siblings = getattr(created_entity.parent, "_children", None)
+                if siblings is not None:
+                    siblings[:] = [
+                        child for child in siblings if child is not created_entity
+                    ]
+                raise
 
         return created_entity
 
